@@ -3,7 +3,7 @@ from vlib.gentie import gentie_step
 
 CHECK = Check(
     "C11",
-    props_modules=["OW.Props.C11"],
+    props_modules=["OW.Props.C11", "OW.Props.Rounded.C11"],
     families=[
         # Muskingum and Lag use + - * / and list shuffling only: bit-exact
         Family("K", rtol=None, args=["models=Lag,Muskingum", "prop=C11", "n=600"], label="K-exact"),
@@ -20,6 +20,7 @@ CHECK = Check(
     pre_steps=[gentie_step],
     level="proof",
     trusted=[
+        "OW.Props.Rounded.C11: the INEQUALITY clauses are also proved over rounded arithmetic — the same kernel definitions instantiated at RNum R (OW/Proofs/Rounded.lean: every operation = exact real result followed by a rounding R.rnd that is monotone, odd, idempotent and fixes 0; literals rounded once; min/max/comparisons exact), for EVERY such R. Interpretation (not a Lean term): IEEE-754 binary64 round-to-nearest (or toward zero) on computations without overflow/NaN is one such R; math.Pow/Exp/Log are idealised as correctly rounded (only their sign / range is used). Two concrete non-identity instances (grid truncation, grid rounding away from zero) are constructed as witnesses",
         "hand-written Lean models OW/Kernels/{Muskingum,Lag,StorageRouting}.lean (StorageRouting through OW/Util/FindRoot.lean) of "
         "models/routing/{muskingum,lag,storage_routing}.go, tied to the code on every run: one real Run call through sim.Catalog per "
         "case vs the compiled model; every exit of calcOutflow carries a branch tag and the generator must reach all seven",
@@ -28,6 +29,7 @@ CHECK = Check(
         "S = k·Q^m + dead within massBalanceLimit as a volume or as the flow increment massBalanceLimit/Δt; Muskingum budget 1e-9 × largest term",
     ],
     assumptions=[
+        "rounded theorems (OW.Props.Rounded.C11): outflow >= 0 needs only dt >= 0; storage >= 0 is proved for the zero-bias set-up (|bias| < 0.001, k >= 0, dead storage >= 0)",
         "StorageRouting: Δt > 0, previous storage ≥ 0, inflow, lateral ≥ 0, dead storage ≥ 0, k ≥ 0, bias < 0.999 (theorems state per exit "
         "path what they need); the S–Q theorem is for zero bias on the exits that report SIndex",
         "Muskingum: 2K(1−X)+Δt ≠ 0 (weights defined); steady/budget need nothing else; the stable region is only needed for non-negativity, "
